@@ -3,6 +3,9 @@
 package types
 
 /*@
+immutable TimeSlot: Start, End
+immutable_cells time.Time
+
 func (TimeSlot).Contains
   props C01 C02 C08
   requires ts.Start != nil && ts.End != nil
